@@ -23,6 +23,9 @@ var c07Contexts = []c07Ctx{
 	{"func", "function f() { ", " }", " echo 9;"},
 	{"nested", "while ($c) { if ($d) { ", " } }", " echo 9;"},
 	{"method", "class C { function m() { ", " } }", " echo 9;"},
+	{"namespace", "namespace N { ", " }", " namespace M { echo 9; }"},
+	{"closure", "$f = function () { ", " };", " echo 9;"},
+	{"altif", "if ($c): ", " endif;", " echo 9;"},
 }
 
 // well-formed statements that may precede the malformed one (lexer modes, brackets,
@@ -139,7 +142,7 @@ func runC07(c *Check) error {
 	}
 	c.Extra["malformed_statements"] = bn
 	c.Bounds = append(c.Bounds,
-		bound("recovery: %d malformed statements (variable names symbolic, 0..1 symbolic blank before them) x 5 list contexts (top level, block, function body, nested block, method body) x preceding statements drawn from %d forms (strings with interpolation, heredoc, backquote, nested blocks, inline HTML), followed by two well-formed statements; versions 7.4 and 5.6", len(brs), len(c07Statements)),
+		bound("recovery: %d malformed statements (variable names symbolic, 0..1 symbolic blank before them) x 8 list contexts (top level, block, function body, nested block, method body, braced namespace body, closure body, alternative-syntax if body) x preceding statements drawn from %d forms (strings with interpolation, heredoc, backquote, nested blocks, inline HTML), followed by two well-formed statements; versions 7.4 and 5.6", len(brs), len(c07Statements)),
 		"printing: every tree returned with errors on the short shapes below, on every corpus program and on the test snippets with one arbitrary byte inserted, replaced or deleted at every "+bound("%d", every)+"-th offset")
 	c.Bounds = append(c.Bounds, shortBounds(K0, K1, K2, vers)...)
 	_ = interp.OutOK
